@@ -508,6 +508,135 @@ Definition check_c05 (t : trace) : bool := checks5 c5_strict t.
 Definition check_c05_core (t : trace) : bool := checks5 c5_core t.
 
 (* ====================================================================================== *)
+(* Part 3b.  Logical statements over traces (what C05 says)                                  *)
+(* ====================================================================================== *)
+
+(* a pending immediate event with priority p / a registered timer with timeout tmo *)
+Definition live_imm (t : trace) (r p : nat) : Prop := live_in t r /\ kind_of t r = Some (KImm p).
+Definition live_tmr (t : trace) (r : nat) (tmo : tv) : Prop := live_in t r /\ kind_of t r = Some (KTimer tmo).
+
+(* r was registered before r' *)
+Definition reg_before (t : trace) (r r' : nat) : Prop :=
+  exists l1 l2, registered t = l1 ++ r' :: l2 /\ In r l1.
+
+(* the absolute deadline (in microseconds) of timer r: the clock reading in force when it was
+   registered or last reset, plus its timeout *)
+Definition deadline (t : trace) (r : nat) (tmo : tv) (d : N) : Prop :=
+  exists t0, armed_clock t r = Some t0 /\ d = (us t0 + us tmo)%N.
+
+(* a poll that made nothing ready *)
+Definition quiet_answer (ans : pollans) : Prop := ans = PReady [] \/ ans = PEintr true.
+
+(* C05-M1: whenever a callback starts - a descriptor or timer callback only when no immediate
+   event is pending; a timer callback only directly after a zero-timeout poll that made nothing
+   ready (followed by the clock reading that shows the timer expired) *)
+Definition choice_priority (t : trace) : Prop :=
+  forall t1 r t2 k, t = t1 ++ EInvoke r :: t2 -> kind_of t1 r = Some k ->
+    (is_imm k = false -> forall r' p, ~ live_imm t1 r' p) /\
+    (is_timer k = true ->
+       exists t0 fs ans now, t1 = t0 ++ [EPoll 0 fs ans; EClock now] /\ quiet_answer ans).
+
+(* C05-M2: the immediate that runs has the lowest priority value among the pending ones and,
+   among those with that value, was registered first *)
+Definition immediate_order (t : trace) : Prop :=
+  forall t1 r t2 p, t = t1 ++ EInvoke r :: t2 -> kind_of t1 r = Some (KImm p) ->
+    forall r' p', live_imm t1 r' p' -> r' <> r -> p < p' \/ (p = p' /\ reg_before t1 r r').
+
+(* C05-M3: the timer that runs has the earliest deadline among the registered timers *)
+Definition timer_order (t : trace) : Prop :=
+  forall t1 r t2 tmo, t = t1 ++ EInvoke r :: t2 -> kind_of t1 r = Some (KTimer tmo) ->
+    forall r' tmo', live_tmr t1 r' tmo' ->
+      exists d d', deadline t1 r tmo d /\ deadline t1 r' tmo' d' /\ (d <= d')%N.
+
+(* ---- one call of events_run (spin = false) or events_spin (spin = true): the events between
+   its start and its end *)
+Definition run_event (e : event) : bool :=
+  match e with ERunStart | ERunEnd _ | ESpinStart | ESpinEnd _ => true | _ => false end.
+Definition is_poll (e : event) : bool := match e with EPoll _ _ _ => true | _ => false end.
+Definition is_invoke (e : event) : bool := match e with EInvoke _ => true | _ => false end.
+
+Definition is_call (spin : bool) (t t1 body : trace) (rc : Z) (t2 : trace) : Prop :=
+  t = t1 ++ (if spin then ESpinStart else ERunStart) :: body ++ (if spin then ESpinEnd rc else ERunEnd rc) :: t2 /\
+  forallb (fun e => negb (run_event e)) body = true.
+
+(* an interrupt request (events_interrupt, also from a signal handler during poll) is pending:
+   made since the last return of events_run / events_spin *)
+Fixpoint intr_aux (acc : bool) (t : trace) : bool :=
+  match t with
+  | [] => acc
+  | EInterrupt :: t' => intr_aux true t'
+  | EPoll _ _ (PEintr true) :: t' => intr_aux true t'
+  | ERunEnd _ :: t' | ESpinEnd _ :: t' => intr_aux false t'
+  | _ :: t' => intr_aux acc t'
+  end.
+Definition intr_pending (t : trace) : bool := intr_aux false t.
+
+(* the result of the latest callback that returned (0 when none did) *)
+Fixpoint last_rc (acc : Z) (body : trace) : Z :=
+  match body with
+  | [] => acc
+  | ECbEnd rc :: b => last_rc rc b
+  | _ :: b => last_rc acc b
+  end.
+
+(* m is the earliest deadline among the registered timers / there is no timer *)
+Definition min_deadline (t : trace) (m : N) : Prop :=
+  (exists r tmo, live_tmr t r tmo /\ deadline t r tmo m) /\
+  (forall r tmo d, live_tmr t r tmo -> deadline t r tmo d -> (m <= d)%N).
+Definition no_timer (t : trace) : Prop := forall r tmo, ~ live_tmr t r tmo.
+
+(* C05-M4a: events_run called with an immediate event pending runs at least one callback and
+   does not poll at all *)
+Definition progress_immediate (t : trace) : Prop :=
+  forall t1 body rc t2, is_call false t t1 body rc t2 -> (exists r p, live_imm t1 r p) ->
+    existsb is_invoke body = true /\ existsb is_poll body = false.
+
+(* C05-M4b: the first poll of events_run blocks indefinitely only when no timer is registered;
+   otherwise its timeout is the distance from the clock reading taken just before to the earliest
+   deadline, rounded up to a millisecond (timeout_ok: exactly, unless that does not fit an int) *)
+Definition blocking_bound (t : trace) : Prop :=
+  forall t1 body rc t2 b1 tmo fs ans b2, is_call false t t1 body rc t2 ->
+    body = b1 ++ EPoll tmo fs ans :: b2 -> existsb is_poll b1 = false ->
+    let h := t1 ++ ERunStart :: b1 in
+    (no_timer h /\ tmo = (-1)%Z) \/
+    (exists m b0 now, min_deadline h m /\ b1 = b0 ++ [EClock now] /\ timeout_ok (m - us now) tmo = true).
+
+(* ... and every later poll of the same events_run does not block (timeout 0), unless it repeats
+   a poll that was interrupted by a signal (EINTR without an interrupt request) *)
+Definition later_polls (t : trace) : Prop :=
+  forall t1 body rc t2 b1 tmo fs ans b2, is_call false t t1 body rc t2 ->
+    body = b1 ++ EPoll tmo fs ans :: b2 -> existsb is_poll b1 = true ->
+    tmo = 0%Z \/
+    (forall e, In e b1 -> is_poll e = true -> exists fs', e = EPoll tmo fs' (PEintr false)).
+
+(* C05-M4c: an events_run that returns without having run any callback had no immediate pending
+   when it started, and - unless an interrupt was requested - no poll of it reported anything
+   and the latest clock reading is before the earliest deadline (or no timer is registered) *)
+Definition wake_runs (t : trace) : Prop :=
+  forall t1 body rc t2, is_call false t t1 body rc t2 -> existsb is_invoke body = false ->
+    let h := t1 ++ ERunStart :: body in
+    (forall r p, ~ live_imm t1 r p) /\
+    (intr_pending h = true \/
+     ((forall tmo fs l, In (EPoll tmo fs (PReady l)) body -> l = []) /\
+      (no_timer h \/ exists m now, min_deadline h m /\ last_clock h = Some now /\ (us now < m)%N))).
+
+(* C05-M5: events_run / events_spin return the result of the latest callback (0 if none ran) *)
+Definition status_returned (t : trace) : Prop :=
+  forall spin t1 body rc t2, is_call spin t t1 body rc t2 -> rc = last_rc 0 body.
+
+(* ... and once a callback has returned non-zero, or has returned while an interrupt request was
+   pending, no further callback starts in that call *)
+Definition stops_dispatch (t : trace) : Prop :=
+  forall spin t1 body rc t2 b1 rc1 b2, is_call spin t t1 body rc t2 -> body = b1 ++ ECbEnd rc1 :: b2 ->
+    (rc1 <> 0%Z \/ intr_pending (t1 ++ (if spin then ESpinStart else ERunStart) :: b1) = true) ->
+    existsb is_invoke b2 = false.
+
+Definition C05_holds (t : trace) : Prop :=
+  choice_priority t /\ immediate_order t /\ timer_order t /\
+  progress_immediate t /\ blocking_bound t /\ later_polls t /\ wake_runs t /\
+  status_returned t /\ stops_dispatch t.
+
+(* ====================================================================================== *)
 (* Part 4.  C14 (registrations): what a refused allocation inside a register call must     *)
 (* look like to the client.  The driver's programs retry the same call immediately.        *)
 (* ====================================================================================== *)
